@@ -112,3 +112,53 @@ func VfC12_EntryPoints() {
 		}
 	}
 }
+
+// VfC12_History: whatever was parsed earlier in the process (an accepted
+// module, a module rejected at the top level, a module rejected inside a
+// function body after its locals were indexed) does not change the verdict or
+// the printed output of a later parse.  sync.Pool, should the library use one,
+// is modelled as handing out any pooled object or none.
+//
+//vf:unwind 400
+//vf:shards 8
+//vf:steps 100000000
+func VfC12_History() {
+	x := hLetterIn("x", 'p', 's')
+	g := hLetterIn("g", 'a', 'c')
+	// the later input: valid, or invalid (uses an undefined local)
+	var src string
+	valid := vfChoice("later", 2) == 0
+	if valid {
+		src = "@" + g + " = global i32 1\ndefine i32 @f(i32 %a) {\nentry:\n\t%" + x + " = add i32 %a, 1\n\tret i32 %" + x + "\n}\n"
+	} else {
+		src = "@" + g + " = global i32 1\ndefine i32 @f(i32 %a) {\nentry:\n\tret i32 %" + x + "\n}\n"
+	}
+	m0, e0 := ParseString("a.ll", src)
+	var s0 string
+	if e0 == nil {
+		s0 = m0.String()
+	}
+	var hist string
+	switch vfChoice("history", 4) {
+	case 0: // accepted, same names
+		hist = "@" + g + " = global i32 2\ndefine i32 @f(i32 %a) {\nentry:\n\t%" + x + " = mul i32 %a, 3\n\tret i32 %" + x + "\n}\n"
+	case 1: // rejected inside the body, after %x and the blocks were indexed
+		hist = "@" + g + " = global i32 2\ndefine i32 @f(i32 %a) {\nentry:\n\t%" + x + " = mul i32 %a, 3\n\tret i32 %undefined\n}\n"
+	case 2: // rejected by an instruction type check in the body
+		hist = "define i32 @f(i32 %a) {\nentry:\n\t%" + x + " = mul i32 %a, 3\n\t%t = trunc i32 %" + x + " to i64\n\tret i32 %" + x + "\n}\n"
+	default: // rejected at the top level
+		hist = "@" + g + " = global i32* @undefined\n%t = type { %missing* }\n"
+	}
+	_, eh := ParseString("h.ll", hist)
+	_ = eh
+	m1, e1 := ParseString("b.ll", src)
+	var s1 string
+	if e1 == nil {
+		s1 = m1.String()
+	}
+	vfReach("C12.history")
+	vfObserveStr("src", src)
+	vfAssert("C12.history.expected-verdict", (e0 == nil) == valid)
+	vfAssert("C12.history.same-verdict", (e0 == nil) == (e1 == nil))
+	vfAssert("C12.history.same-output", s0 == s1)
+}
